@@ -97,6 +97,7 @@ def gen(rng, i):
 
 
 def run(ctx):
+    fp.BMM_CONST_LHS[0] = 0.2   # BATCH_MATMUL with the CONSTANT on the left is generated here (finding D42 is classified by this check)
     ctx.rule = ("generated float models of bounded depth (1-4 ops) x the static-range configs (8/16-bit activations, 4/8-bit weights, symmetric/asymmetric activations, per-tensor/per-channel weights) x random calibration inputs: dequantized outputs of interpreter(quantized) vs interpreter(float) on the calibration input with a deliberately generous bound, plus the crisp sub-claims (finite, not constant when the float output is not); pipeline compared with the Lean model; distinct = distinct (model, recipe)")
     ctx.explanation = ("C07b, for ONE operator under the integer kernel of the TFLite quantization spec over exact rationals and any rounding rule with error <= 1/2 (the kernels' fixed-point multiplier/shift rescaling -- findings D29/D33 -- is NOT modelled): with operand, weight and bias codes within half a step of the float values, the dequantized result of a fully-connected row is within sy/2 + sum(|x_i| sw/2 + |w_i| sx/2 + sx sw/4) + sx sw/2 of the float result when that lies inside the output range, and is the nearest representable bound otherwise (fc_row_error, fc_row_error_sat, fc_row_saturates_hi); with the library's own quantization the hypotheses are discharged (fc_row_error_quantized); in terms of the ranges the 'fixed fraction of the activation magnitude' is 0.59 % per term for a8w8, 7.4 % for a8w4, 0.40 % for a16w8, 7.1 % for a16w4 (fc_row_error_a8w8 ...); outputs are in range and NOT CONSTANT when the float outputs differ by more than the bound (not_constant); elementwise ADD: sy/2 + s1/2 + s2/2 (add_error). PARTIAL: the fixed-point kernels of LiteRT are outside this repository; what is proved is what the quantizer contributes to the numerics: parameters (C17 under rounding), bias scale = input scale x weight scale with zero point 0 (C04.bias_params, which makes the integer accumulator the float op on dequantized operands), and the per-operand transformations (C03.xfs_srq). Closeness of interpreter outputs is executed with a generous bound, not proved.")
     common.proof_side(ctx, THEOREMS, modules=["QProps.C07", "QProps.C07b", "QProps.C17", "QProps.C17b", "QProps.C04", "QProps.C03"])
